@@ -7,6 +7,7 @@ language toolkit is imported from props/c32.py (shared helper kept in a property
 from __future__ import annotations
 
 import ast
+import copy
 from pathlib import Path
 
 from ..astx import atoms, call_name, dotted, enclosing_stmt, expand, facts_at, kwarg, last, reaching_def
@@ -30,6 +31,14 @@ EXPLANATION = (
     "R3 (one predicate for 'encrypted'): the manifest flag, the writer's choice between encrypted and clear secret files, and the reader's "
     "demand for a password test `encryption_password` the same way (`is not None` vs truthiness). "
     "R4 (keys): every manifest/meta key the reader takes is written; every BackupEntry field is populated. "
+    "R5 (the password value): at each hand-over of the password (create_backup_archive -> encrypt, read_backup_archive -> decrypt, encrypt/decrypt -> the key "
+    "derivation function, that function -> the primitive `.derive(...)`) the value-dependence slice of the argument (every assignment that can flow into it by value, "
+    "flow-insensitive; tests that only decide whether an assignment runs are not part of it) is taken. password-verbatim:<site>: the slice consists of the function's own "
+    "password parameter and operations that keep distinct passwords distinct (copies, str(), a strict text encoding, a constant affix) - a strip/lower/slice/lossy encoding "
+    "anywhere makes an archive open with a password other than the one it was written with; a constant or another name reaching the sink means the caller's password is not "
+    "(the only thing) used. password-agrees: the set of value-changing operations on the writing side equals the set on the reading side (`.encode()` spellings normalised) - "
+    "an operation only one side applies makes the two sides derive different keys from the same password, so the archive cannot be read back. An operation the rule cannot "
+    "classify is an analysis error, not a pass. Not decided by R5: that equal sets of operations are applied in the same order and under the same conditions. "
     "Not decided: YAML/JSON value fidelity, tar/gzip, AES-GCM and PBKDF2 guarantees (trusted), deployments without a valid name."
 )
 TRUSTED = ["CPython ast, re._parser", "yaml/json round-trip, tarfile, cryptography (AES-GCM authenticates key and data)"]
@@ -448,6 +457,202 @@ def _contains(root: ast.AST, node: ast.AST) -> bool:
     return any(x is node for x in ast.walk(root))
 
 
+
+# ------------------------------------------------------------------------------ R5 helpers
+_LOSSY_STR_METHODS = {
+    "strip", "lstrip", "rstrip", "lower", "upper", "casefold", "title", "capitalize", "swapcase", "replace", "split", "rsplit",
+    "splitlines", "partition", "rpartition", "removeprefix", "removesuffix", "expandtabs", "translate", "center", "ljust", "rjust", "zfill",
+}
+
+
+def _value_defs(fn: ast.AST) -> dict[str, list[ast.AST]]:
+    """name -> every expression whose value may be bound to it anywhere in fn (flow-insensitive)."""
+    table: dict[str, list[ast.AST]] = {}
+
+    def bind(t: ast.AST, v: ast.AST) -> None:
+        if isinstance(t, ast.Name):
+            table.setdefault(t.id, []).append(v)
+        elif isinstance(t, (ast.Tuple, ast.List)):
+            if isinstance(v, (ast.Tuple, ast.List)) and len(v.elts) == len(t.elts) and not any(isinstance(x, ast.Starred) for x in t.elts + v.elts):
+                for a, b in zip(t.elts, v.elts):
+                    bind(a, b)
+            else:
+                for a in t.elts:
+                    bind(a.value if isinstance(a, ast.Starred) else a, v)
+
+    for st in ast.walk(fn):
+        if isinstance(st, ast.Assign):
+            for t in st.targets:
+                bind(t, st.value)
+        elif isinstance(st, ast.AnnAssign) and st.value is not None:
+            bind(st.target, st.value)
+        elif isinstance(st, ast.AugAssign) and isinstance(st.target, ast.Name):
+            bind(st.target, ast.BinOp(left=ast.Name(id=st.target.id, ctx=ast.Load()), op=st.op, right=st.value))
+        elif isinstance(st, ast.NamedExpr):
+            bind(st.target, st.value)
+        elif isinstance(st, (ast.For, ast.AsyncFor, ast.comprehension)):
+            bind(st.target, st.iter)
+        elif isinstance(st, (ast.With, ast.AsyncWith)):
+            for it in st.items:
+                if it.optional_vars is not None:
+                    bind(it.optional_vars, it.context_expr)
+    return table
+
+
+def _subst(e: ast.AST, targets: set[int]) -> ast.AST:
+    """Copy of e with the sub-expressions whose identity is in targets replaced by the placeholder PW."""
+    if id(e) in targets:
+        return ast.Name(id="PW", ctx=ast.Load())
+    new = copy.copy(e)
+    for fld, val in ast.iter_fields(e):
+        if isinstance(val, ast.AST):
+            setattr(new, fld, _subst(val, targets))
+        elif isinstance(val, list):
+            setattr(new, fld, [(_subst(v, targets) if isinstance(v, ast.AST) else v) for v in val])
+    return new
+
+
+def _codec(c: ast.AST | None) -> str | None:
+    if c is None:
+        return "utf8"
+    if isinstance(c, ast.Constant) and isinstance(c.value, str):
+        return c.value.lower().replace("-", "").replace("_", "")
+    return None
+
+
+def _classify_op(e: ast.AST, carriers: list[ast.AST]) -> tuple[str, str]:
+    """(kind, normal form) of one operation applied to the password value(s) `carriers` inside e.
+    kind: 'same' (value unchanged), 'inj' (distinct passwords stay distinct: a strict text encoding, a constant affix),
+    'lossy' (distinct passwords can become equal), 'unknown'."""
+    text = " ".join(ast.unparse(_subst(e, {id(c) for c in carriers})).split())
+    one = carriers[0] if len(carriers) == 1 else None
+    if isinstance(e, ast.Call) and one is not None:
+        kws = {k.arg: k.value for k in e.keywords}
+        if isinstance(e.func, ast.Attribute) and e.func.value is one:
+            if e.func.attr == "encode" and None not in kws:
+                enc = e.args[0] if e.args else kws.get("encoding")
+                err = e.args[1] if len(e.args) > 1 else kws.get("errors")
+                cod = _codec(enc)
+                if cod is not None and len(e.args) <= 2 and set(kws) <= {"encoding", "errors"}:
+                    if err is None or (isinstance(err, ast.Constant) and err.value == "strict"):
+                        return "inj", f"encode[{cod}]"
+                    return "lossy", text
+            if e.func.attr in _LOSSY_STR_METHODS:
+                return "lossy", text
+            return "unknown", text
+        fname = call_name(e)
+        if fname == "str" and e.args == [one] and not kws:
+            return "same", text
+        if last(fname) == "cast" and len(e.args) == 2 and e.args[1] is one and not kws:
+            return "same", text
+        if fname == "bytes" and e.args and e.args[0] is one:
+            enc = e.args[1] if len(e.args) > 1 else kws.get("encoding")
+            err = e.args[2] if len(e.args) > 2 else kws.get("errors")
+            cod = _codec(enc) if enc is not None else None
+            if cod is not None and set(kws) <= {"encoding", "errors"}:
+                if err is None or (isinstance(err, ast.Constant) and err.value == "strict"):
+                    return "inj", f"encode[{cod}]"
+                return "lossy", text
+        return "unknown", text
+    if isinstance(e, ast.Subscript) and e.value is one:
+        return "lossy", text
+    if isinstance(e, ast.JoinedStr) and one is not None:
+        fv = [v for v in e.values if isinstance(v, ast.FormattedValue)]
+        if len(fv) == 1 and fv[0].value is one and fv[0].conversion in (-1, 115) and fv[0].format_spec is None:
+            return ("same" if len(e.values) == 1 else "inj"), text
+        return "unknown", text
+    if isinstance(e, ast.FormattedValue):
+        return "unknown", text
+    if isinstance(e, ast.BinOp) and isinstance(e.op, ast.Add) and one is not None:
+        other = e.right if e.left is one else e.left
+        if isinstance(other, ast.Constant) and isinstance(other.value, (str, bytes)):
+            return "inj", text
+    return "unknown", text
+
+
+class PwFlow:
+    """What can reach one password sink, by value: does the function's own password parameter reach it, which operations
+    are applied to it on the way (flow-insensitive over the function's assignments; the tests that merely decide *whether*
+    an assignment runs are control, not value), and which other sources (constants, other names) can reach it instead."""
+
+    def __init__(self, fn: ast.AST, param: str, sink: ast.AST):
+        self.fn, self.param, self.sink = fn, param, sink
+        self.ops: list[tuple[str, str, ast.AST]] = []  # (kind, normal form, node)
+        self.foreign: list[str] = []
+        self.hit = False
+        self.defs = _value_defs(fn)
+        derived = {param}
+        grew = True
+        while grew:
+            grew = False
+            for n, vals in self.defs.items():
+                if n not in derived and any(self._carries(v, derived) for v in vals):
+                    derived.add(n)
+                    grew = True
+        self.derived = derived
+        self._seen: set[str] = set()
+        self._visit(sink)
+
+    @staticmethod
+    def _carries(e: ast.AST, derived: set[str]) -> bool:
+        return any(isinstance(x, ast.Name) and isinstance(x.ctx, ast.Load) and x.id in derived for x in ast.walk(e))
+
+    def _visit(self, e: ast.AST) -> None:
+        if isinstance(e, ast.Name):
+            if e.id == self.param:
+                self.hit = True
+            if e.id in self._seen:
+                return
+            self._seen.add(e.id)
+            vals = self.defs.get(e.id, [])
+            if not vals and e.id != self.param:
+                self.foreign.append(f"`{e.id}`")
+            for v in vals:
+                self._visit(v)
+        elif isinstance(e, ast.Constant):
+            if e.value is not None:
+                self.foreign.append(f"the constant {e.value!r}")
+        elif isinstance(e, ast.IfExp):
+            self._visit(e.body)
+            self._visit(e.orelse)
+        elif isinstance(e, ast.BoolOp):
+            for v in e.values:
+                self._visit(v)
+        elif isinstance(e, ast.NamedExpr):
+            self._visit(e.value)
+        else:
+            if isinstance(e, ast.Call) and isinstance(e.func, ast.Attribute):
+                children = [e.func.value] + list(e.args) + [k.value for k in e.keywords]
+            elif isinstance(e, ast.JoinedStr):
+                children = [v.value for v in e.values if isinstance(v, ast.FormattedValue)]
+            else:
+                children = [c for c in ast.iter_child_nodes(e) if isinstance(c, ast.expr)]
+            carriers = [c for c in children if self._carries(c, self.derived)]
+            if not carriers:
+                self.foreign.append(f"`{ast.unparse(e)[:50]}`")
+                return
+            kind, form = _classify_op(e, carriers)
+            self.ops.append((kind, form, e))
+            for c in carriers:
+                self._visit(c)
+
+    def forms(self) -> set[str]:
+        """Normal forms of the value-changing operations (and foreign sources) on the way to the sink."""
+        return {f for k, f, _n in self.ops if k != "same"} | {"from " + s for s in self.foreign} | (set() if self.hit else {"parameter unused"})
+
+
+def _kdf_input(kfn: ast.AST) -> ast.AST:
+    """The expression handed to the primitive key derivation inside a key-derivation function."""
+    for c in ast.walk(kfn):
+        if isinstance(c, ast.Call) and isinstance(c.func, ast.Attribute) and c.func.attr == "derive" and c.args:
+            return c.args[0]
+        if isinstance(c, ast.Call) and last(call_name(c)) == "pbkdf2_hmac":
+            a = kwarg(c, "password", 1)
+            if a is not None:
+                return a
+    raise AnchorError(f"`{getattr(kfn, 'name', '?')}` hands nothing to a primitive key derivation (`.derive(...)` / `pbkdf2_hmac`) the rule recognises")
+
+
 # ------------------------------------------------------------------------------ evaluation
 def eval_rules(arch_tree: ast.AST, enc_tree: ast.AST, dns_pattern: str):
     """Yields ('ob', rule, instance, desc, ok, which-tree, node, fn, reason) / ('floor', rule, what, n)."""
@@ -643,6 +848,70 @@ def eval_rules(arch_tree: ast.AST, enc_tree: ast.AST, dns_pattern: str):
                f"manifest flag uses a `{_cls_txt(flag[1])}` test, the reader uses a `{_cls_txt(cls)}` test")
     yield ("floor", "C33.R3", "reader tests of the password", nreq)
 
+    # ---------------------------------------------------------------- R5 (the password value on both sides)
+    def pw_arg(call: ast.Call, callee: ast.AST | None, idx: int) -> ast.AST | None:
+        ps = [a.arg for a in callee.args.args] if callee is not None else []
+        return kwarg(call, ps[idx], idx) if len(ps) > idx else (call.args[idx] if len(call.args) > idx else None)
+
+    sites: list[tuple[str, str, ast.AST, ast.AST, str, ast.AST | None, str]] = []  # side, role, fn, tree-of-fn, param, sink, what
+    for c in enc_calls:
+        sites.append(("writer", "writer", wfn, "a", pw, pw_arg(c, enc, 1), f"the password `{WRITER}` hands to `encrypt`"))
+    dec_calls = [c for c in ast.walk(rfn) if isinstance(c, ast.Call) and last(call_name(c)) == "decrypt" and not isinstance(c.func, ast.Attribute)]
+    for c in dec_calls:
+        sites.append(("reader", "reader", rfn, "a", rpw, pw_arg(c, dec, 1), f"the password `{READER}` hands to `decrypt`"))
+    if not dec_calls:
+        yield ("ob", "C33.R5", "password-verbatim:reader", f"the password given to `{READER}` is the one handed to `decrypt`", False, "a", rfn, rfn,
+               "the reader never calls `decrypt`: its password is not used, encrypted secrets cannot come back")
+    kdf_fns: list[tuple[str, ast.AST]] = []
+    for side, role, fn_, lay in (("writer", "encrypt", enc, LW), ("reader", "decrypt", dec, LR)):
+        ps = [a.arg for a in fn_.args.args]
+        if len(ps) < 2:
+            raise AnchorError(f"`{role}` has no password parameter")
+        kn = last(call_name(lay["kdf"]))
+        if kn in efuncs and not isinstance(lay["kdf"].func, ast.Attribute):
+            sites.append((side, role, fn_, "e", ps[1], pw_arg(lay["kdf"], efuncs[kn], 0), f"the password `{role}` hands to `{kn}`"))
+            if all(k[1] is not efuncs[kn] for k in kdf_fns):
+                kdf_fns.append((side, efuncs[kn]))
+        else:
+            sites.append((side, role, fn_, "e", ps[1], _kdf_input(fn_), f"the bytes `{role}` hands to the key derivation"))
+    shared_kdf = len(kdf_fns) == 1 and same_kdf
+    for side, kfn in kdf_fns:
+        kps = [a.arg for a in kfn.args.args]
+        if not kps:
+            raise AnchorError(f"`{kfn.name}` has no password parameter")
+        sites.append(("both" if shared_kdf else side, "kdf" if shared_kdf else f"kdf-of-{side}", kfn, "e", kps[0], _kdf_input(kfn), f"the bytes `{kfn.name}` derives the key from"))
+    side_forms: dict[str, set[str]] = {"writer": set(), "reader": set()}
+    nsite = 0
+    for side, role, fn_, which, param, sink, what in sites:
+        if sink is None:
+            raise AnchorError(f"C33.R5: {what}: argument not found at the call")
+        nsite += 1
+        fl = PwFlow(fn_, param, sink)
+        unknown = [f for k, f, _n in fl.ops if k == "unknown"]
+        if unknown:
+            raise AnchorError(f"C33.R5: {what} goes through `{unknown[0]}`, an operation the rule cannot classify as value-preserving or not")
+        lossy = [f for k, f, _n in fl.ops if k == "lossy"]
+        why = []
+        if lossy:
+            why.append("it goes through " + ", ".join(f"`{f}`" for f in sorted(set(lossy))) + " (PW = the password given): passwords that differ only in what this removes derive the same key, "
+                       "so an archive opens with a password other than the one it was written with")
+        if fl.foreign:
+            why.append("it can also be " + ", ".join(sorted(set(fl.foreign))) + ", which is not the caller's password")
+        if not fl.hit:
+            why.append(f"the parameter `{param}` does not reach it")
+        node = next((n for k, _f, n in fl.ops if k == "lossy"), sink)
+        yield ("ob", "C33.R5", f"password-verbatim:{role}", f"{what} is the parameter `{param}` itself (copied, or strictly text-encoded: nothing that maps two passwords to one)",
+               not why, which, node, fn_, "; ".join(why))
+        for sd in (("writer", "reader") if side == "both" else (side,)):
+            side_forms[sd] |= fl.forms()
+    yield ("floor", "C33.R5", "password hand-over sites", nsite)
+    only_w, only_r = sorted(side_forms["writer"] - side_forms["reader"]), sorted(side_forms["reader"] - side_forms["writer"])
+    yield ("ob", "C33.R5", "password-agrees", "from the caller's password to the key-derivation input, the writing side (create_backup_archive -> encrypt -> key derivation) and the reading side "
+           "(read_backup_archive -> decrypt -> key derivation) apply the same operations", not only_w and not only_r, "a", dec_calls[0] if dec_calls else rfn, rfn,
+           "only the writing side applies " + (", ".join(f"`{f}`" for f in only_w) or "nothing") + "; only the reading side applies " + (", ".join(f"`{f}`" for f in only_r) or "nothing")
+           + " (PW = the password given): for a password that this operation changes, the two sides derive different keys, so the archive cannot be read back with the password it was written with")
+
+
     # ---------------------------------------------------------------- R4
     man = next((e for e in W.entries if e["var"] is None and e["keys"] is not None), None)
     mbranch = next((b for b in R.branches if b["kind"] == "eq" and man is not None and b["text"] == man["suffix"]), None)
@@ -723,6 +992,7 @@ def _dns_pattern(repo) -> str:
 FLOORS = {
     ("C33.R1", "file kinds written"): 5, ("C33.R1", "reader branches"): 5, ("C33.R2", "wire segments"): 3,
     ("C33.R3", "tests guarding the encrypt call"): 1, ("C33.R3", "reader tests of the password"): 1, ("C33.R4", "keys read by the reader"): 5,
+    ("C33.R5", "password hand-over sites"): 5,
 }
 
 
@@ -746,7 +1016,7 @@ def run(chk) -> None:
     for item in eval_rules(tree, tree, dns):
         if item[0] == "ob" and not item[4]:
             bad[item[1]] = bad.get(item[1], 0) + 1
-    for rule in ("C33.R1", "C33.R2", "C33.R3", "C33.R4"):
+    for rule in ("C33.R1", "C33.R2", "C33.R3", "C33.R4", "C33.R5"):
         chk.floor(rule, "planted defects reported in the fixture", bad.get(rule, 0), 1)
     chk.observe("a deployment whose metadata has no name is written as `unknown.yaml` (several such deployments overwrite each other): outside the statement's 'valid names'")
     chk.observe("names with dots would make `x.secret.yaml` ambiguous; excluded because _DNS_1035_RE admits no dot (checked on the regex language)")
@@ -800,6 +1070,19 @@ TWINS: list[Twin] = [
     Twin("decrypt remembers verified keys by salt", _EN, "    key = _derive_key(password, salt)\n    aesgcm = AESGCM(key)\n    return aesgcm.decrypt(nonce, ciphertext, None)", "    key = _VERIFIED.get(salt)\n    if key is None:\n        key = _derive_key(password, salt)\n    plaintext = AESGCM(key).decrypt(nonce, ciphertext, None)\n    _VERIFIED[salt] = key\n    return plaintext\n\n\n_VERIFIED: dict[bytes, bytes] = {}", "C33.R2"),
     Twin("benign: key derivation memoised on (password, salt)", _EN, "def _derive_key(password: str, salt: bytes) -> bytes:", "@functools.lru_cache(maxsize=8)\ndef _derive_key(password: str, salt: bytes) -> bytes:", None),
 
+    # ---- R5 breaking (the seed's form first)
+    Twin("reader strips the password before decrypting", _AR, "    buf = io.BytesIO(data)\n    cr_files: dict", "    buf = io.BytesIO(data)\n    if encryption_password is not None:\n        encryption_password = encryption_password.strip()\n    cr_files: dict", "C33.R5"),
+    Twin("reader drops a trailing newline through a local", _AR, "                decrypted = decrypt(content, encryption_password)", "                pw = encryption_password.rstrip(\"\\n\")\n                decrypted = decrypt(content, pw)", "C33.R5"),
+    Twin("writer lower-cases the password", _AR, "encrypt(secret_yaml, encryption_password)", "encrypt(secret_yaml, encryption_password.lower())", "C33.R5"),
+    Twin("reader falls back to a default password", _AR, "decrypt(content, encryption_password)", "decrypt(content, encryption_password or \"changeme\")", "C33.R5"),
+    Twin("decrypt strips at the key-derivation hand-over", _EN, "    key = _derive_key(password, salt)\n    aesgcm = AESGCM(key)\n    return aesgcm.decrypt", "    key = _derive_key(password.strip(), salt)\n    aesgcm = AESGCM(key)\n    return aesgcm.decrypt", "C33.R5"),
+    Twin("key derivation truncates the password", _EN, 'kdf.derive(password.encode("utf-8"))', 'kdf.derive(password[:72].encode("utf-8"))', "C33.R5"),
+    Twin("key derivation drops non-ASCII characters", _EN, 'kdf.derive(password.encode("utf-8"))', 'kdf.derive(password.encode("ascii", "ignore"))', "C33.R5"),
+    # ---- R5 benign
+    Twin("benign: reader re-binds the password unchanged under the None guard", _AR, "    buf = io.BytesIO(data)\n    cr_files: dict", "    buf = io.BytesIO(data)\n    if encryption_password is not None:\n        encryption_password = str(encryption_password)\n    cr_files: dict", None),
+    Twin("benign: password through a local, passed by keyword", _AR, "                decrypted = decrypt(content, encryption_password)", "                pw = encryption_password\n                decrypted = decrypt(content, password=pw)", None),
+    Twin("benign: default codec, encoded bytes in a local", _EN, '    return kdf.derive(password.encode("utf-8"))', '    secret = password.encode()\n    return kdf.derive(secret)', None),
+    Twin("benign: writer password through a conditional copy", _AR, "                    encrypted = encrypt(secret_yaml, encryption_password)", "                    pw = encryption_password if encryption_password else encryption_password\n                    encrypted = encrypt(secret_yaml, pw)", None),
     # ---- R1 breaking
     Twin("generic .yaml test before .secret.yaml", _AR, _SY + _Y, _Y + _SY, "C33.R1"),
     Twin("writer suffix typo", _AR, 'f"{name}.secret.yaml"', 'f"{name}.secrets.yaml"', "C33.R1"),
